@@ -42,6 +42,18 @@ def conv0(space, a, b, v, m):
     return 1.0 if L.GN[b] == "g" else 0.0
 
 
+def exact_formula(space, a, b, x, v, m):
+    """the defining formula in exact rational arithmetic on the binary64 inputs (pi = the binary64 pi)"""
+    from fractions import Fraction as Fr
+    x, v = Fr(x), Fr(v)
+    bc, bt, rho, pi = Fr(m["bcoh"]), Fr(m["btot"]), Fr(m["rho"]), Fr(math.pi)
+    if space == 0:
+        base = [v, v / x + 1, v / bc + 1, (v - bt) / bc + 1][a]
+        return [base, x * (base - 1), bc * (base - 1), bc * (base - 1) + bt][b]
+    base = [v, v / (4 * pi * rho * x) + 1, v / bc + 1][a]
+    return [base, 4 * pi * rho * x * (base - 1), bc * (base - 1)][b]
+
+
 def oracle(pystog, case, res):
     """defining formula for x>0 (float64, 1e-9 of the term magnitudes); round trip Y->X(X->Y(v)) = v;
     two-step paths through every intermediate; finite conventional value at x = 0"""
@@ -87,6 +99,14 @@ def oracle(pystog, case, res):
                 if np.isfinite(two).all() and bad.any():
                     i = int(np.flatnonzero(bad)[0])
                     return "path %s->%s->%s gives %r, direct %r at x=%r" % (names[a], names[z], names[b], float(two[i]), float(v[pos][i]), float(xs[i]))
+        # a weak signal (deviation from the conventional value ~1e-9 .. 1e-13): the result is still the defining formula to 1e-9 of
+        # ITS OWN magnitude (a detour through "1 + small" and back would lose those digits)
+        if case["desc"].get("values") == "tiny signal" and pos.any() and (sp == 0 or (m["rho"] > 0 and m["bcoh"] > 0)):
+            for xi, yi, vi in zip(x[pos], y[pos], v[pos]):
+                ex = exact_formula(sp, a, b, float(xi), float(yi), m)
+                if ex != 0 and np.isfinite(vi) and abs(float(vi) - float(ex)) > 1e-9 * abs(float(ex)) + 1e-300:
+                    return "%s_to_%s: weak signal %r at x=%r converts to %r, the defining formula gives %r (relative error %.2g)" % (
+                        names[a], names[b], float(yi), float(xi), float(vi), float(ex), abs(float(vi) - float(ex)) / abs(float(ex)))
         # a strictly positive abscissa is not zero, however small (round-off of a shifted grid, 1e-15 next to 40): defining formula
         tiny = (x >= 1e-290) & (x < 1e-3) & np.isfinite(y)      # (below that, products with x are subnormal: rounding)
         if sp == 1 and not (m["rho"] > 0 and m["bcoh"] > 0):
